@@ -173,6 +173,15 @@ func c16Noise(r *rand.Rand, fg *vk.FilterGen, g *vk.StoreGen) []c16Msg {
 	return out
 }
 
+// c16Newest orders a REQ answer newest first: the statement fixes which stored events a REQ
+// is answered with and that one EOSE follows them, not the order among them (the order of
+// the stores' own query results is the business of C03 and C06).
+func c16Newest(ans []*mocrelay.Event) []*mocrelay.Event {
+	out := append([]*mocrelay.Event{}, ans...)
+	sort.SliceStable(out, func(a, b int) bool { return out[a].CreatedAt > out[b].CreatedAt })
+	return out
+}
+
 func TestVerif_C16(t *testing.T) {
 	rep := vk.NewReport(t, "C16", "exploration")
 	rep.Rule = "one session per generated client message sequence over all five message types: (a) CacheHandler, fully pipelined (EVENT, match-everything REQ as state observation, random REQ/COUNT/CLOSE/AUTH), replies parsed into per-request groups, OK verdict judged by the retention specification, REQ answers by the query specification; followed by Dump -> Restore into a fresh cache of the same capacity and a differential panel of 40 filter lists plus a second dump; (b) SQLiteHandler (EventBulkInsertNum=1), REQs issued at quiescence (a sentinel event is polled in the events table), answers judged against the SQLite model; non-trivial = a sequence containing a rejected EVENT, a non-empty REQ answer or a CLOSE/AUTH between requests; distinct = distinct (message-type sequence shape, #rejected, capacity)"
@@ -242,7 +251,7 @@ func TestVerif_C16(t *testing.T) {
 				}
 				if m.all {
 					shape += "A"
-					if v := vk.CheckQuery(ans, cm.ReqFilters, ans); !v.OK {
+					if v := vk.CheckQuery(c16Newest(ans), cm.ReqFilters, c16Newest(ans)); !v.OK {
 						rep.Violation("listing/"+v.Sig, v.Why, wit())
 						return
 					}
@@ -271,7 +280,7 @@ func TestVerif_C16(t *testing.T) {
 					R = ans
 				} else {
 					shape += "R"
-					if v := vk.CheckQuery(R, cm.ReqFilters, ans); !v.OK {
+					if v := vk.CheckQuery(R, cm.ReqFilters, c16Newest(ans)); !v.OK {
 						rep.Violation("req-answer/"+v.Sig, v.Why, wit())
 						return
 					}
@@ -508,7 +517,7 @@ func TestVerif_C16(t *testing.T) {
 					ans = append(ans, ev.Event)
 				}
 				rep.Eval(1)
-				if v := vk.CheckQuery(model.Live(), fs, ans); !v.OK {
+				if v := vk.CheckQuery(model.Live(), fs, c16Newest(ans)); !v.OK {
 					rep.Violation("req-answer/"+classifySQLAnswer(v.Sig, false, model, g.Offered, ans), v.Why, wit())
 					return
 				}
